@@ -227,8 +227,15 @@ def T9(m, R):
                 wc = '%s.get(%s.group(1), ColorComponentType.FOREGROUND)' % (compname, var)
                 if comp_arg is None or norm(comp_arg).replace('ColourComponentType', 'ColorComponentType') != wc:
                     problems.append('component is %s, expected %s' % (norm(comp_arg), wc))
-        R.check(not problems, f, st, 'groups: prefix, then %d x (0x)?(hex digits); bases 16/10; values passed in order' % want_pairs,
-                '; '.join(problems), construct=cons)
+        # values taken from the match in bulk (`m.groups()` sliced / zipped, `*values` passed on): which group feeds which argument is not
+        # followed here -- undecided, not a finding
+        bulk = any(isinstance(a_, ast.Starred) for n_ in ast.walk(blk) if isinstance(n_, ast.Call) for a_ in n_.args) or \
+            any(isinstance(n_, ast.Call) and call_name(n_) == 'groups' for n_ in ast.walk(blk))
+        if problems and bulk and not got:
+            R.undecided(f, st, 'the groups are taken from the match in bulk (groups() / starred arguments): their roles are not followed', construct=cons)
+        else:
+            R.check(not problems, f, st, 'groups: prefix, then %d x (0x)?(hex digits); bases 16/10; values passed in order' % want_pairs,
+                    '; '.join(problems), construct=cons)
     # ---- alignment regexes
     f = m.fn('AnsiString._apply_string_format')
     pats = _pattern_assigns(f)
